@@ -30,3 +30,12 @@ template <typename V> static inline int observe_1d(const V& v, size_t i, size_t*
 KERNEL int K(k_arange3)(int start, int stop, int step, size_t i, size_t* oshape, size_t* odim, int* out){ return observe_1d(view::arange(start, stop, step, nm::dtype_t<int>{}), i, oshape, odim, out); }
 KERNEL int K(k_arange2)(int start, int stop, size_t i, size_t* oshape, size_t* odim, int* out){ return observe_1d(view::arange(start, stop, nm::dtype_t<int>{}), i, oshape, odim, out); }
 KERNEL int K(k_arange1)(int stop, size_t i, size_t* oshape, size_t* odim, int* out){ return observe_1d(view::arange(stop, nm::dtype_t<int>{}), i, oshape, odim, out); }
+
+// full_like without dtype: the result has the element type of the PROTOTYPE array and the fill value is converted to it (np.full_like(a, v) == full(a.shape, v, a.dtype))
+KERNEL int K(k_full_like_u8)(const size_t* shape, const unsigned char* data, unsigned value, const size_t* idx, size_t nidx, size_t* oshape, size_t* odim, unsigned* out, size_t* esz){
+  hyb_t<unsigned char,16,2> a; if (!mk2(a,shape,data)) return -1; auto v = view::full_like(a, value);
+  *esz = sizeof(meta::get_element_type_t<meta::remove_cvref_t<decltype(nm::unwrap(v))>>); return OBSV(v); }
+// with an explicit dtype the requested type wins
+KERNEL int K(k_full_like_u8_dtype)(const size_t* shape, const unsigned char* data, unsigned value, const size_t* idx, size_t nidx, size_t* oshape, size_t* odim, unsigned* out, size_t* esz){
+  hyb_t<unsigned char,16,2> a; if (!mk2(a,shape,data)) return -1; auto v = view::full_like(a, value, nm::uint32);
+  *esz = sizeof(meta::get_element_type_t<meta::remove_cvref_t<decltype(nm::unwrap(v))>>); return OBSV(v); }
